@@ -26,6 +26,7 @@ def run(tier, seed, replay=None):
         rule="expression trees (depth <= 3) whose leaves are numbered probe calls (some raising after being evaluated) over every "
              "call path: script functions of arity 0-6 (direct path and reflect path), variadic script functions, wrong argument "
              "counts, spread calls into fixed and variadic functions, host functions fixed/variadic/spread, defer, array and map "
-             "literals, binary operators, && || ?: ??, index and slice operands, return lists, multi-assignment; plus random "
+             "literals, binary operators, && || ?: ??, index and slice operands (2 and 3 indices), member access, delete, return lists, "
+             "multi-assignment, the two-target map read `v, ok = m[k]` with present / nil-valued / missing keys; plus random "
              "programs; compared: the ordered probe log and the result; non-trivial = distinct source with a non-empty log",
         design_ref="DESIGN.md §4 C07", expectations=EXPECT)
